@@ -282,6 +282,18 @@ void harness_timeval(void)
 }
 
 /* ------------------------------------------------------------------ (3) */
+/* contract of evdns_strtotimeval as decided by harness_timeval, substituted in harness_option (goto-instrument
+ * --replace-calls): -1 and *out untouched, or 0 and a normal timeval of at least 1 ms with tv_sec <= INT_MAX */
+static int c39_tv_calls, c39_tv_ok; static long c39_tv_s, c39_tv_us; static const char *c39_tv_arg;
+int c39_timeval_contract(const char *const str, struct timeval *out)
+{
+	c39_tv_calls++; c39_tv_arg = str; c39_tv_ok = vp_bool();
+	if (!c39_tv_ok) return -1;
+	c39_tv_s = (long)vp_range(0, 2147483647); c39_tv_us = (long)vp_range(0, 999999);
+	__CPROVER_assume(!(c39_tv_s == 0 && c39_tv_us < 1000));
+	out->tv_sec = c39_tv_s; out->tv_usec = c39_tv_us;
+	return 0;
+}
 static void c39_snapshot(const struct evdns_base *b, struct dcr_conf *c)
 {
 	c->have_search_state = b->global_search_state != NULL;
@@ -351,10 +363,17 @@ void harness_option(void)
 	EVDNS_LOCK(base);
 	r = evdns_base_set_option_impl(base, option, val_null ? NULL : val, flags);
 	EVDNS_UNLOCK(base);
-	c39_kf_time();
+#if defined(KF_ONLY_INT_WRAP)
+	__CPROVER_assume(c39_strtol_calls > 0);
+#endif
 	c39_snapshot(base, &got);
 
-	wr = dcr_set_option(&want, option, val_null ? NULL : val, flags, c39_l, c39_strtol_calls ? c39_l_whole : 0, c39_d, c39_strtod_calls ? c39_d_whole : 0, c39_psp_calls ? c39_psp_ok[0] : 0);
+	wr = dcr_set_option(&want, option, val_null ? NULL : val, flags, c39_l, c39_strtol_calls ? c39_l_whole : 0,
+	    c39_tv_calls ? c39_tv_ok : 0, c39_tv_s, c39_tv_us, c39_psp_calls ? c39_psp_ok[0] : 0);
+	if (k != DCR_NOPTS && (dcr_opts[k].kind == DCR_TIME || dcr_opts[k].kind == DCR_TIME_MAX3600))
+		VP_ASSERT(c39_tv_calls == 1 && c39_tv_arg == val, "C39: time option value not handed to evdns_strtotimeval");
+	else
+		VP_ASSERT(c39_tv_calls == 0, "C39: evdns_strtotimeval called for an option that is not a time");
 	VP_ASSERT(r == wr, "C39: evdns_base_set_option result differs from the reference (0 ok/ignored, -1 malformed value)");
 	VP_ASSERT(c39_conf_equal(&got, &want), "C39: configuration after evdns_base_set_option differs from the reference");
 	if (wr == -1) VP_ASSERT(c39_conf_equal(&got, &before), "C39: a rejected option changed the configuration");
